@@ -240,6 +240,27 @@ impl<'a> Iterator for Budgeted<'a> {
         PULLS.with(|p| p.set(p.get() + 1));
         Some(v)
     }
+    /// O(1) skip: consumes n+1 elements of the budget
+    fn nth(&mut self, n: usize) -> Option<u32> {
+        let n = n as u64;
+        if let Some(l) = self.src.len() {
+            if self.k.saturating_add(n) >= l {
+                let consumed = l - self.k.min(l);
+                self.k = l;
+                PULLS.with(|p| p.set(p.get() + consumed));
+                return None;
+            }
+        }
+        if self.budget <= n {
+            std::panic::panic_any(BudgetExhausted("colour pull budget exhausted"));
+        }
+        self.budget -= n + 1;
+        self.k += n;
+        let v = self.src.at(self.k, self.c666);
+        self.k += 1;
+        PULLS.with(|p| p.set(p.get() + n + 1));
+        Some(v)
+    }
 }
 
 pub fn pulls() -> u64 {
@@ -442,7 +463,15 @@ impl Rig {
     /// Execute one operation on the real driver; bus traffic is decoded into the controller and
     /// the current command is closed (a driver call always starts with a command).
     pub fn apply(&mut self, op: &Op) -> Outcome {
-        self.apply_budget(op, 1 << 22)
+        // a call may legitimately consume as many colours as the rectangle has points (plus a peek)
+        let budget = match op {
+            Op::FillContiguous { r, .. } => r.w as u64 * r.h as u64 + 16,
+            Op::SetPixels { sx, sy, ex, ey, .. } => {
+                (*ex as u64).saturating_sub(*sx as u64).saturating_add(1) * (*ey as u64).saturating_sub(*sy as u64).saturating_add(1) + 16
+            }
+            _ => 1 << 22,
+        };
+        self.apply_budget(op, budget)
     }
     pub fn apply_budget(&mut self, op: &Op, pull_budget: u64) -> Outcome {
         let c666 = self.c666();
